@@ -377,6 +377,7 @@ def is_ws(c):
 
 
 _UTF8_UPPER = None
+_UTF8_LOWER = {}                       # filled by utf8_towupper(): towlower() of the same libc and locale
 _TOWUPPER_PROBE = r"""
 #include <wctype.h>
 #include <wchar.h>
@@ -386,6 +387,7 @@ int main(void) {
     unsigned long c;
     if (!setlocale(LC_ALL, "C.UTF-8") && !setlocale(LC_ALL, "en_US.UTF-8")) return 2;
     for (c = 0; c < 0x110000; c++) if ((unsigned long)towupper((wint_t)c) != c) printf("%lx %lx\n", c, (unsigned long)towupper((wint_t)c));
+    for (c = 0; c < 0x110000; c++) if ((unsigned long)towlower((wint_t)c) != c) printf("L %lx %lx\n", c, (unsigned long)towlower((wint_t)c));
     return 0;
 }
 """
@@ -403,8 +405,12 @@ def utf8_towupper():
             r = subprocess.run(["gcc", "-O1", "-w", "-o", os.path.join(d, "p"), os.path.join(d, "p.c")], capture_output=True, text=True)
             out = subprocess.run([os.path.join(d, "p")], capture_output=True, text=True) if r.returncode == 0 else None
             if out is not None and out.returncode == 0 and out.stdout:
-                _UTF8_UPPER = {int(a, 16): int(b, 16) for a, b in (l.split() for l in out.stdout.splitlines())}
+                rows = [l.split() for l in out.stdout.splitlines()]
+                _UTF8_UPPER = {int(r[0], 16): int(r[1], 16) for r in rows if len(r) == 2}
+                _UTF8_LOWER.update({int(r[1], 16): int(r[2], 16) for r in rows if len(r) == 3})
             else:
+                _UTF8_LOWER.update({c: ord(chr(c).lower()) for c in range(0x110000)
+                                    if not 0xD800 <= c < 0xE000 and len(chr(c).lower()) == 1 and chr(c).lower() != chr(c)})
                 _UTF8_UPPER = {c: ord(chr(c).upper()) for c in range(0x110000)
                                if not 0xD800 <= c < 0xE000 and len(chr(c).upper()) == 1 and chr(c).upper() != chr(c)}
         finally:
@@ -549,9 +555,13 @@ def o_C06(op, ob, before):
         got = ob.img[k][off:off + len(rc)]
         out = []
         bad = [i for i, g in enumerate(got) if g != rc[i] and g != ru[i]]
-        if bad:
-            i = bad[0]
-            out.append(Fail("C06", "%s:wrong-result" % op.fn, "at %d: %x -> %x, towupper gives %x (UTF-8 locale) / %x (\"C\" locale); %d such cells: %s" % (
+        # an uppercase letter turned into its lowercase partner is named apart from the other errors of the table
+        for kind, sel in (("lowercased", [i for i in bad if _UTF8_LOWER.get(before[k][off + i]) == got[i]]),
+                          ("other", [i for i in bad if _UTF8_LOWER.get(before[k][off + i]) != got[i]])):
+            if not sel:
+                continue
+            i, bad = sel[0], sel
+            out.append(Fail("C06", "%s:wrong-result:%s" % (op.fn, kind), "at %d: %x -> %x, towupper gives %x (UTF-8 locale) / %x (\"C\" locale); %d such cells: %s" % (
                 i, before[k][off + i], got[i], ru[i], rc[i], len(bad), ",".join("%x->%x" % (before[k][off + j], got[j]) for j in bad[:12]))))
         loc = [i for i, g in enumerate(got) if g != rc[i] and g == ru[i]]
         if loc:
